@@ -456,6 +456,21 @@ func (m *Monitors) OnDeleteRange(node int, min, max uint64, removed []*raft.Log)
 	if s := n.snaps.Newest(); s != nil {
 		snapIdx = s.meta.Index
 	}
+	// C11: routine compaction (a removal from the front of committed entries the snapshot covers) leaves at least
+	// TrailingLogs entries when that many exist; the wholesale reset of a store that cannot hold gaps is exempt.
+	if n.r != nil && n.conf != nil && last <= snapIdx && last <= n.r.CommitIndex() {
+		rest := n.store.Indexes()
+		front := len(rest) == 0 || removed[0].Index < rest[0]
+		reset := len(rest) == 0 && m.w.sc.Store != StorePlain && m.w.sc.Store != StoreInmem
+		before := uint64(len(rest) + len(removed))
+		want := n.conf.TrailingLogs
+		if before < want {
+			want = before
+		}
+		if front && !reset && uint64(len(rest)) < want {
+			m.fail("C11", "compaction-leaves-fewer-than-trailing", "n%d DeleteRange(%d,%d) below its snapshot %d leaves %d of %d entries, TrailingLogs is %d", node, min, max, snapIdx, len(rest), before, n.conf.TrailingLogs)
+		}
+	}
 	if last <= snapIdx {
 		return // everything removed is covered by the newest durable snapshot
 	}
